@@ -249,6 +249,50 @@ def run(ctx):
         if len(t.inputs[0].signatures) != m0['m']:
             ctx.violation('after signing again the input carries another number of signatures than signers', {'op': 'resign-subset', 'signatures': len(t.inputs[0].signatures), **info})
 
+    # --- inputs created from an ADDRESS only (no keys): the key is supplied when signing.  The right key gives a transaction the
+    # independent verifier accepts for the output being spent; a wrong key must not give a transaction that the library calls valid
+    from bitcoinlib.keys import Key as _Key
+    for trial in range(30 if T else 10):
+        nin_ = rng.randint(1, 2)
+        ks_ = [_Key(rng.randrange(2 ** 200, 2 ** 250)) for _ in range(nin_)]
+        kinds_ = [rng.choice(['p2pkh', 'p2wpkh', 'p2sh_p2wpkh']) for _ in range(nin_)]
+        t = Transaction(network='bitcoin', witness_type='segwit')
+        meta_ = []
+        for k_, kind_ in zip(ks_, kinds_):
+            wt_ = {'p2pkh': 'legacy', 'p2wpkh': 'segwit', 'p2sh_p2wpkh': 'p2sh-segwit'}[kind_]
+            addr_ = k_.address(encoding='bech32' if kind_ == 'p2wpkh' else 'base58', script_type=kind_)
+            txid_ = txgen.rbytes(rng, 32)
+            n_ = rng.randrange(4)
+            val_ = rng.choice([5000, 123456, 10 ** 8])
+            t.add_input(txid_, n_, address=addr_, value=val_, witness_type=wt_)
+            h_ = txgen._h160(k_.public_byte)
+            spk_ = {'p2pkh': b'\x76\xa9\x14' + h_ + b'\x88\xac', 'p2wpkh': b'\x00\x14' + h_,
+                    'p2sh_p2wpkh': b'\xa9\x14' + txgen._h160(b'\x00\x14' + h_) + b'\x87'}[kind_]
+            meta_.append({'spk': spk_, 'val': val_})
+        t.add_output(1000, lock_script=b'\x00\x14' + txgen.rbytes(rng, 20))
+        po = ';'.join('%s:%d' % (m_['spk'].hex(), m_['val']) for m_ in meta_)
+        mode = rng.choice(['right', 'right-list', 'wrong', 'swapped'])
+        info = {'kinds': kinds_, 'm_of_n': [(1, 1)] * nin_, 'schedule': 'address-only inputs, keys: ' + mode}
+        ctx.count('address-only-inputs:' + mode)
+        try:
+            if mode == 'right':
+                for i_, k_ in enumerate(ks_):
+                    t.sign([k_], index_n=i_)
+            elif mode == 'right-list':
+                t.sign(list(ks_), fail_on_unknown_key=False)
+            elif mode == 'wrong':
+                t.sign([_Key(rng.randrange(2 ** 200, 2 ** 250))], index_n=0, fail_on_unknown_key=False)
+            else:
+                if nin_ < 2:
+                    continue
+                t.sign([ks_[1]], index_n=0, fail_on_unknown_key=False)
+                t.sign([ks_[0]], index_n=1, fail_on_unknown_key=False)
+        except Exception as e:
+            if mode.startswith('right'):
+                ctx.violation('signing an address-only input with its own key raised', {'op': 'sign-address-only', 'error': repr(e)[:120], **info})
+            continue
+        checks.append(('signed-address-only:' + mode, lib_verify(t), 'valid' if mode.startswith('right') else 'invalid', raw_of(t), po, info))
+
     # --- independent verdicts ------------------------------------------------------------------------------------
     idx = [k for k, c in enumerate(checks) if c[3] is not None and c[4] is not None]
     verdicts = lean_verdict([(checks[k][3], checks[k][4]) for k in idx])
